@@ -583,3 +583,60 @@ EDITS["addrows_rownorms_realloc"] = [
 			EGLPNUM_TYPENAME_EGlpNumReallocArray (&(B->rownorms), lp->O->nrows);''',
   '''		EGLPNUM_TYPENAME_EGlpNumReallocArray (&(B->rownorms), lp->O->nrows);'''),
 ]
+
+# ---- C16 ------------------------------------------------------------------------------------
+EDITS["copy_prob_pricing_and_params"] = [
+ # the struct assignment shared every norm / scale array of a solved problem with its copy (double free, use after free);
+ # iteration / time limits and objective limits were not copied (DESIGN 10 #19)
+ ("qsopt_ex/qsopt.c", '''	EGLPNUM_TYPENAME_EGlpNumClearVar (p2->pricing->htrigger);
+	*(p2->pricing) = *(p->pricing);
+	/* I added this line because copying the EGLPNUM_TYPENAME_heap (as a pointer) doesn't make any
+	 * sense ! */
+	EGLPNUM_TYPENAME_ILLheap_init (&(p2->pricing->h));
+	EGLPNUM_TYPENAME_EGlpNumInitVar (p2->pricing->htrigger);
+	EGLPNUM_TYPENAME_EGlpNumCopy (p2->pricing->htrigger, p->pricing->htrigger);
+''', '''	/* only the pricing *choices* are copied: the norm, scale and partial-pricing arrays of p
+	 * belong to p's current basis (p2->pricing was initialised by QScreate_prob) */
+	p2->pricing->pI_price = p->pricing->pI_price;
+	p2->pricing->pII_price = p->pricing->pII_price;
+	p2->pricing->dI_price = p->pricing->dI_price;
+	p2->pricing->dII_price = p->pricing->dII_price;
+	p2->lp->maxiter = p->lp->maxiter;
+	p2->lp->maxtime = p->lp->maxtime;
+	EGLPNUM_TYPENAME_EGlpNumCopy (p2->uobjlim, p->uobjlim);
+	EGLPNUM_TYPENAME_EGlpNumCopy (p2->lobjlim, p->lobjlim);
+	if (p->qslp->objsense == QS_MAX)
+		EGLPNUM_TYPENAME_ILLsimplex_set_bound (p2->lp, (const EGLPNUM_TYPE *) (&(p2->lobjlim)), QS_MAX);
+	else
+		EGLPNUM_TYPENAME_ILLsimplex_set_bound (p2->lp, (const EGLPNUM_TYPE *) (&(p2->uobjlim)), QS_MIN);
+'''),
+]
+EDITS["copy_prob_objname"] = [
+ # a copy of a problem without objective name got the invented name "obj" registered in its row table:
+ # QSnew_row (copy, .., "obj") fails where it succeeds on the original
+ ("qsopt_ex/qsopt.c", '''	else
+	{
+		strcpy (buf, "obj");
+		rval = ILLsymboltab_uname (&p2->qslp->rowtab, buf, "", NULL);
+		CHECKRVALG (rval, CLEANUP);
+		ILL_UTIL_STR (p2->qslp->objname, buf);
+	}
+	if (p2->qslp->rowtab.tablesize == 0) {
+		ILLsymboltab_create(&p2->qslp->rowtab, 100);
+	}
+	rval = ILLsymboltab_register (&p2->qslp->rowtab, p2->qslp->objname,
+																-1, &pindex, &hit);
+	rval = rval || hit;
+	CHECKRVALG (rval, CLEANUP);
+''', '''	if (p2->qslp->objname != 0)
+	{
+		if (p2->qslp->rowtab.tablesize == 0) {
+			ILLsymboltab_create(&p2->qslp->rowtab, 100);
+		}
+		rval = ILLsymboltab_register (&p2->qslp->rowtab, p2->qslp->objname,
+																	-1, &pindex, &hit);
+		rval = rval || hit;
+		CHECKRVALG (rval, CLEANUP);
+	}
+'''),
+]
